@@ -158,22 +158,23 @@ func (p Poly) asAtom() string {
 // ---------------------------------------------------------------------------------------------
 
 type Normer struct {
-	Root      *ssa.Function // the function whose parameters carry the role names
-	resolving map[*ssa.Parameter]bool
-	curFrom   *ssa.BasicBlock
-	phiDepth  int
-	NoInline  map[string]bool        // callee names kept as uninterpreted calls
-	AtomAlias map[string]string      // atom string -> role (e.g. "invoke:Bounds(bc)" -> "B")
-	Ctx       []ssa.CallInstruction  // calling context used to resolve helper parameters
-	P         *Prog
-	Bind      map[ssa.Value]string // role names for values (parameters, ...)
-	PhiChoice map[*ssa.Phi]int     // select one incoming edge of a phi (decision-table extraction)
-	Opaque    bool                 // set when the result contains an atom outside the fragment
-	OpaqueWhy []string
-	env       []map[ssa.Value]Poly
-	depth     int
-	MaxInline int
-	memo      map[ssa.Value]Poly
+	Root       *ssa.Function // the function whose parameters carry the role names
+	resolving  map[*ssa.Parameter]bool
+	curFrom    *ssa.BasicBlock
+	phiDepth   int
+	NoInline   map[string]bool       // callee names kept as uninterpreted calls
+	AtomAlias  map[string]string     // atom string -> role (e.g. "invoke:Bounds(bc)" -> "B")
+	Ctx        []ssa.CallInstruction // calling context used to resolve helper parameters
+	P          *Prog
+	Bind       map[ssa.Value]string // role names for values (parameters, ...)
+	PhiChoice  map[*ssa.Phi]int     // select one incoming edge of a phi (decision-table extraction)
+	Opaque     bool                 // set when the result contains an atom outside the fragment
+	OpaqueWhy  []string
+	env        []map[ssa.Value]Poly
+	depth      int
+	MaxInline  int
+	memo       map[ssa.Value]Poly
+	FoldTables bool // reads of immutable package tables at constant positions become constants
 }
 
 func NewNormer(p *Prog) *Normer {
@@ -241,6 +242,14 @@ func (n *Normer) Norm(v ssa.Value) Poly {
 	for i := len(n.env) - 1; i >= 0; i-- {
 		if p, ok := n.env[i][v]; ok {
 			return p
+		}
+	}
+	if n.FoldTables {
+		switch v.(type) {
+		case *ssa.UnOp, *ssa.Index, *ssa.Field, *ssa.Lookup, *ssa.Extract:
+			if tv, ok := n.tableVal(v, 0); ok && tv != nil && tv.Kind == VInt {
+				return pConst(tv.I)
+			}
 		}
 	}
 	switch x := v.(type) {
@@ -915,7 +924,7 @@ func (p *Prog) callSitesOf(fn *ssa.Function) []ssa.CallInstruction {
 // resolveParam: the value of parameter idx of helper fn, if every call site passes the same
 // (normal form of the) argument. Exported functions are not resolved (unknown callers).
 func (n *Normer) resolveParam(fn *ssa.Function, idx int) (Poly, bool) {
-	if fn.Parent() != nil || (fn.Object() != nil && fn.Object().Exported()) {
+	if fn.Parent() != nil {
 		return nil, false
 	}
 	p := fn.Params[idx]
@@ -940,6 +949,9 @@ func (n *Normer) resolveParam(fn *ssa.Function, idx int) (Poly, bool) {
 			n.Ctx = saved
 			return v, true
 		}
+	}
+	if fn.Object() != nil && fn.Object().Exported() {
+		return nil, false // unknown callers outside the repository
 	}
 	sites := n.P.callSitesOf(fn)
 	if len(sites) == 0 {
